@@ -5,12 +5,34 @@ One case (op 900) is a whole history:
   a1 = ground truth of the stream for the oracle (ignored by model and implementation):
        segment lengths in stream order, +n = a well-formed registered packet of n octets,
        -n = n octets of junk in which no two-octet window is a registered id; [] = unknown
-  a2.. = operations: [0, chunk...] = deque.append(bytearray(chunk)), [1] = parse with the default
-       ids, [2, triples...] = parse with those ids.
-Observed after every operation: the returned packets and the complete deque contents."""
-import itertools
+  a2.. = operations: [0, chunk...] = deque.append(bytearray(chunk)), [3, chunk...] = deque.append(bytes(chunk)),
+       [1] = parse with the default ids, [2, triples...] = parse with those ids (ids are passed as a
+       list or as a tuple, alternating with the operation index).
+Observed after every operation: the returned packets and the complete deque contents.  After every
+parse call the adapter behaves like a caller that reuses its buffers: it overwrites the chunk objects
+it had appended (they have been consumed) and the packets it was just given, and counts the calls
+after which the queue or a packet handed out earlier changed thereby (last line of the result; 0).
+Op 902 = the same history, observed at the parse operations only (large backlogs), model side through
+the linear-time formulation Model/ParserFast.v (proved equal to the one behind op 900)."""
+import itertools, resource
 from collections import deque
 from spacepackets.ccsds import spacepacket as sp
+
+# The extracted model uses the non-tail-recursive list functions of the Coq library (app, map, firstn):
+# a backlog of more than about 500 000 octets overflows the default 8 MiB stack of the model driver.
+# Child processes inherit the soft limit: raise it for the driver (streams() leaves the largest backlogs
+# out when the limit cannot be raised).
+BIG_STACK = False
+try:
+    _soft, _hard = resource.getrlimit(resource.RLIMIT_STACK)
+    _want = 1 << 30
+    if _soft == resource.RLIM_INFINITY or _soft >= _want:
+        BIG_STACK = True
+    elif _hard == resource.RLIM_INFINITY or _hard >= _want:
+        resource.setrlimit(resource.RLIMIT_STACK, (_want, _hard))
+        BIG_STACK = True
+except Exception:      # noqa
+    pass
 
 ID = "C13"
 ENUMS = [
@@ -22,6 +44,12 @@ ASSUMPTIONS = [
     "collections.deque append/popleft/clear and bytearray.extend/slicing as modelled (queue = list of octet strings)",
     "the theorems quantify over all octet streams, cut sets and append/parse interleavings; the tie enumerates all "
     "2^(n-1) fragmentations only for short streams and all single/double cuts of longer ones",
+    "sizes: every packet length 7..1100 (thorough ..4200), +-8 of every multiple of 256 up to 4 KiB, every multiple of "
+    "4 KiB (thorough 1 KiB) up to the largest packet (65542 octets); backlogs queued before one parse call up to 1 MiB "
+    "(thorough 2 MiB), incl. one-octet reads; large backlogs (op 902) go through Model/ParserFast.v, proved equal to the "
+    "mirror of the code for every queue and operation list (C13_run_ops_fast_eq)",
+    "the adapter overwrites the caller's consumed chunk objects and the packets handed out after every parse call: the "
+    "model's values are values, so any sharing of memory between queue, results and caller buffers is a disagreement",
 ]
 TRUSTED = []
 ORACLE_LIMIT = {"quick": 40000, "thorough": 60000}   # the exhaustive streams are oracle-checked in full in the quick tier
@@ -35,19 +63,60 @@ def _obs(pk, q):
     return [[len(pk), len(q)]] + [list(x) for x in pk] + [list(x) for x in q]
 
 
+_COMPLEMENT = bytes(b ^ 0xFF for b in range(256))
+
+
+def _flip(x):
+    """overwrite a buffer in place (every octet complemented); immutable octet strings are left alone"""
+    if isinstance(x, bytes) or (isinstance(x, memoryview) and x.readonly):
+        return bytes(x)
+    x[:] = bytes(x).translate(_COMPLEMENT)
+    return bytes(x)
+
+
+def _history(a, observe_appends):
+    dflt = _ids(a[0])
+    q = deque()
+    out = []
+    mine = []        # chunk objects the caller appended and has not overwritten yet
+    handed = []      # (packet object handed out, its content after the caller's edit)
+    aliased = 0
+    shared = []      # one list object the caller keeps and edits in place between calls
+    for k, o in enumerate(a[2:]):
+        if o and o[0] in (0, 3):
+            c = bytearray(o[1:]) if o[0] == 0 else bytes(o[1:])
+            q.append(c)
+            mine.append(c)
+            if observe_appends:
+                out += _obs([], q)
+            continue
+        ids = _ids(o[1:]) if o and o[0] == 2 else dflt
+        if o and o[0] == 2 and k % 4 < 2:
+            shared[:] = ids
+            ids = shared
+        pk = sp.parse_space_packets(q, tuple(ids) if k % 2 else ids)
+        out += _obs(pk, q)
+        # the caller reuses its receive buffers and edits the packets it was given
+        qsnap = [bytes(x) for x in q]
+        for c in mine:
+            _flip(c)
+        mine = []
+        new = []
+        for x in pk:
+            before = bytes(x)
+            _flip(x)
+            new.append((x, before.translate(_COMPLEMENT) if not isinstance(x, bytes) else before))
+        handed = (handed if len(handed) < 64 else handed[-64:]) + new
+        if [bytes(x) for x in q] != qsnap or any(bytes(x) != exp for x, exp in handed):
+            aliased += 1
+    return out + [[aliased]]
+
+
 def impl(op, a):
     if op == 900:
-        dflt = _ids(a[0])
-        q = deque()
-        out = []
-        for o in a[2:]:
-            if o and o[0] == 0:
-                q.append(bytearray(o[1:]))
-                out += _obs([], q)
-            else:
-                ids = _ids(o[1:]) if o and o[0] == 2 else dflt
-                out += _obs(sp.parse_space_packets(q, ids), q)
-        return out
+        return _history(a, True)
+    if op == 902:
+        return _history(a, False)
     if op == 901:
         q = deque(bytearray(x[1:]) for x in a[1:])
         return _obs(sp.parse_space_packets(q, _ids(a[0])), q)
@@ -59,14 +128,30 @@ def raw_id(t, s, ap):
     return t * 4096 + s * 2048 + ap
 
 
-def make_packet(rng, triple, n, ver=None):
-    """a space packet of n >= 7 octets with the given identification"""
+def make_packet(rng, triple, n, ver=None, fill=None):
+    """a space packet of n >= 7 octets with the given identification.  fill: None = random data;
+    'hdr' = the data field repeats the packet's own header (every 6th position looks like the start
+    of a registered packet: the parser must not resynchronise inside a packet); 'ff' / '00' / '80' =
+    constant octets; 'short' = header look-alikes whose length field is 0"""
     t, s, ap = triple
     v = rng.randrange(8) if ver is None else ver
     w0 = v * 8192 + raw_id(t, s, ap)
     w1 = rng.randrange(65536)
     d = n - 7
-    return [w0 >> 8, w0 & 255, w1 >> 8, w1 & 255, d >> 8, d & 255] + [rng.randrange(256) for _ in range(n - 6)]
+    h = [w0 >> 8, w0 & 255, w1 >> 8, w1 & 255, d >> 8, d & 255]
+    m = n - 6
+    if fill is None:
+        data = [rng.randrange(256) for _ in range(m)]
+    elif fill == "hdr":
+        data = (h * (m // 6 + 1))[:m]
+    elif fill == "short":
+        data = ((h[:4] + [0, 0]) * (m // 6 + 1))[:m]
+    else:
+        data = [{"ff": 0xFF, "00": 0, "80": 0x80}[fill]] * m
+    return h + data
+
+
+FILLS = [None, None, None, "hdr", "short", "ff", "00", "80"]
 
 
 def clean(stream, segs, raws):
@@ -81,14 +166,14 @@ def clean(stream, segs, raws):
     return True
 
 
-def make_stream(rng, triples, segs):
+def make_stream(rng, triples, segs, fills=False):
     """segs: +n packet / -n junk.  Returns the stream (junk resampled until clean)."""
     raws = {raw_id(*t) for t in triples}
     for _ in range(1000):
         st = []
         for n in segs:
             if n > 0:
-                st += make_packet(rng, rng.choice(triples), n)
+                st += make_packet(rng, rng.choice(triples), n, fill=rng.choice(FILLS) if fills else None)
             else:
                 st += [rng.choice([0, 0xFF, rng.randrange(256), rng.randrange(256)]) for _ in range(-n)]
         if clean(st, segs, raws):
@@ -105,15 +190,93 @@ def chunks_of(stream, cuts):
     return [stream[cuts[i]:cuts[i + 1]] for i in range(len(cuts) - 1)]
 
 
-def hist(triples, segs, chunks, parse_mask=None, final_parses=1):
-    """append every chunk; parse after chunk i when bit i of parse_mask is set (None = always)"""
+def hist(triples, segs, chunks, parse_mask=None, final_parses=1, op=900, as_bytes=0):
+    """append every chunk; parse after chunk i when bit i of parse_mask is set (None = always);
+    chunk i is appended as an immutable bytes object when bit i of as_bytes is set"""
     ops = []
     for i, c in enumerate(chunks):
-        ops.append([0] + c)
+        ops.append([3 if as_bytes >> i & 1 else 0] + c)
         if parse_mask is None or parse_mask >> i & 1:
             ops.append([1])
     ops += [[1]] * final_parses
-    return (900, [flat(triples), list(segs)] + ops)
+    return (op, [flat(triples), list(segs)] + ops)
+
+
+def cut_every(stream, k):
+    return chunks_of(stream, list(range(k, len(stream), k)))
+
+
+def random_cuts(rng, n, k):
+    return sorted(rng.sample(range(1, n), min(k, n - 1))) if n > 1 else []
+
+
+def length_case(rng, n, variant, ids):
+    """one history around a packet of total length n (7 <= n <= 65542), by variant number"""
+    m = 7 + (n * 7) % 13
+    fill = FILLS[(n // 7) % len(FILLS)]
+    t = ids[n % len(ids)]
+    big = make_packet(rng, t, n, fill=fill)
+    small = make_packet(rng, ids[0], m)
+    v = variant % 8
+    if v == 0:        # everything in one chunk
+        return hist(ids, [n, m], [big + small], final_parses=0)
+    if v == 1:        # cut inside the primary header
+        return hist(ids, [n, m], chunks_of(big + small, [1 + (n // 8) % 6]), final_parses=0)
+    if v == 2:        # the last octet arrives later
+        return hist(ids, [n, m], chunks_of(big + small, [n - 1]), final_parses=0)
+    if v == 3:        # cut exactly at the packet boundary and inside the next header
+        return hist(ids, [n, m], chunks_of(big + small, [n, n + 3]), final_parses=0, as_bytes=2)
+    if v == 4:        # junk in front, one random cut
+        j = 1 + n % 5
+        st = make_stream(rng, ids, [-j]) + big + small
+        if not clean(st, [-j, n, m], {raw_id(*x) for x in ids}):
+            st, j = big + small, 0
+        segs = ([-j] if j else []) + [n, m]
+        return hist(ids, segs, chunks_of(st, random_cuts(rng, len(st), 1)))
+    if v == 5:        # the small packet first, then the big one in 256-octet reads, parse at the end only
+        return hist(ids, [m, n], cut_every(small + big, 256), parse_mask=0, final_parses=2, op=902)
+    if v == 6:        # the big packet twice (same length, different data), two random cuts
+        big2 = make_packet(rng, t, n, fill=None)
+        return hist(ids, [n, n, m], chunks_of(big + big2 + small, random_cuts(rng, 2 * n + m, 2)))
+    # the big packet complete, followed by the first 1..6 octets of the next one, completed later
+    k = 1 + n % 6
+    return hist(ids, [n, m], chunks_of(big + small, [n + k]), as_bytes=1)
+
+
+def backlog_case(rng, ids, sizes, chunking, tail=True):
+    """packets of the given total lengths queued in chunks BEFORE the first parse call; then a second
+    parse, one more packet and a last parse.  chunking: ('every', k) | ('cuts', k) | ('prefix', share, k)"""
+    st = []
+    for n in sizes:
+        st += make_packet(rng, rng.choice(ids), n, fill=rng.choice(FILLS))
+    segs = list(sizes)
+    if chunking[0] == "every":
+        ops = [[0] + c for c in cut_every(st, chunking[1])]
+    elif chunking[0] == "cuts":
+        ops = [[0] + c for c in chunks_of(st, random_cuts(rng, len(st), chunking[1]))]
+    else:                             # a share of the stream in reads of k octets, parse, the rest, parse
+        cut = int(len(st) * chunking[1])
+        ops = [[0] + c for c in cut_every(st[:cut], chunking[2])] + [[1]] + [[0] + c for c in cut_every(st[cut:], chunking[2])]
+    ops += [[1], [1]]
+    if tail:
+        last = make_packet(rng, ids[0], 7 + rng.randrange(40))
+        segs.append(len(last))
+        ops += [[0] + last[:3], [0] + last[3:], [1]]
+    return (902, [flat(ids), segs] + ops)
+
+
+def sizes_for(rng, total, lo, hi):
+    """packet lengths in lo..hi adding up to exactly total (total >= 7)"""
+    out, left = [], total
+    while left > 0:
+        n = rng.randrange(lo, hi + 1)
+        if left - n < 7:
+            n = left
+        if n > 65542:
+            n = left - 7 if left - 7 <= 65542 and left - 7 >= 7 else 65542
+        out.append(n)
+        left -= n
+    return out
 
 
 IDS1 = [(0, 1, 3)]
@@ -174,7 +337,7 @@ def streams(tier, rng):
             segs.append(rng.choice([7, 7, 8, 9, 12, 13, rng.randrange(7, 60)]))
         if rng.random() < 0.3:
             segs.append(-rng.randrange(1, 10))
-        st = make_stream(rng, ids, segs)
+        st = make_stream(rng, ids, segs, fills=True)
         n = len(st)
         ncut = rng.choice([0, 1, 2, 3, rng.randrange(0, n), n - 1])
         cuts = sorted(rng.sample(range(1, n), min(ncut, n - 1)))
@@ -183,8 +346,8 @@ def streams(tier, rng):
             while rng.random() < 0.15:
                 ops.append([1])
             if rng.random() < 0.05:
-                ops.append([0])
-            ops.append([0] + c)
+                ops.append([rng.choice([0, 3])])
+            ops.append([0 if rng.random() < 0.8 else 3] + c)
             if rng.random() < 0.6:
                 ops.append([1])
         ops.append([1])
@@ -227,17 +390,79 @@ def streams(tier, rng):
     cases.append((901, [flat(IDS1), [0], [0]]))
     cases.append((901, [[], [0, 8, 3, 0, 0, 0, 0, 0]]))
     yield "arbitrary_octets_and_queues", "exact", cases
+    # 5. size sweep of the packet length: EVERY total length 7..1100 (thorough: ..4200) as one chunk, and
+    #    once more in a variant rotating with the length (cut in the header / before the last octet / at the
+    #    boundary, junk in front, 256-octet reads queued before the first parse, twice the same length,
+    #    partial next header); data fields of constant octets and of header look-alikes
+    cases = []
+    for n in range(7, 4201 if big else 1101):
+        ids = IDS3 if n % 3 == 0 else IDS1
+        cases.append(length_case(rng, n, 0, ids))
+        cases.append(length_case(rng, n, 1 + n % 7, ids))
+    yield "packet_length_sweep", "exact", cases
+    # 6. lengths within +-8 of every multiple of 256 up to 4 KiB, around 8/16/32/64 KiB and the largest
+    #    packet there is (length field 0xFFFF: 65542 octets); thorough: around every multiple of 1 KiB
+    cases = []
+    for m in ([] if big else range(1280, 4097, 256)):      # thorough: covered by the sweep above
+        for d in range(-8, 9):
+            cases.append(length_case(rng, m + d, (m // 256 + d) % 8, IDS1 if d % 2 else IDS3))
+    for m in (list(range(5120, 65537, 1024)) if big else list(range(8192, 65537, 4096))):
+        pow2 = m & (m - 1) == 0
+        for k, d in enumerate((-8, -7, -1, 0, 1, 6, 7, 8) if big else (-1, 0, 1, 6) if pow2 else (0, 1 if m % 8192 else -1)):
+            if m + d <= 65542:
+                cases.append(length_case(rng, m + d, (0, 2, 5, 7, 1, 3)[(k + m // 1024) % 6], IDS1))
+    for n, v in ((65541, 0), (65542, 2), (65535, 5), (65542, 5), (65530, 7)):
+        cases.append(length_case(rng, n, v, IDS3))
+    for k in range(200 if big else 12):                      # random lengths above 4 KiB
+        cases.append(length_case(rng, rng.randrange(4097, 65543), k, IDS1))
+    yield "packet_length_boundaries_to_64k", "exact", cases
+    # 7. backlogs: many chunks queued before the first parse call (1 KiB .. 1 MiB, thorough .. 2 MiB):
+    #    reads of a fixed size, one-octet reads, a few random cuts, a parse in the middle; totals at and
+    #    around 64 KiB + 6 (the largest packet) and other powers of two
+    cases = []
+    for total in [1024, 2048, 4096, 8192, 16384, 32768]:
+        for r in range(3 if big else 1):
+            sz = sizes_for(rng, total + rng.randrange(-8, 9), 60, 1100)
+            cases.append(backlog_case(rng, IDS3, sz, ("every", 512 if total <= 8192 else 4096)))
+            cases.append(backlog_case(rng, IDS1, sz, ("cuts", 1 + r)))
+            cases.append(backlog_case(rng, IDS1, sz, ("prefix", 0.6, 1000)))
+            if total <= 4096:
+                cases.append(backlog_case(rng, IDS1, sz, ("every", 1)))
+                cases.append(backlog_case(rng, IDS3, sz, ("every", 3)))
+    for k, total in enumerate([65535, 65536, 65537, 65541, 65542, 65543, 65549, 65550, 66000]):
+        sz = sizes_for(rng, total, 3000, 9000)
+        cases.append(backlog_case(rng, IDS1, sz, [("cuts", 1), ("every", 4096), ("cuts", 5)][k % 3], tail=k % 2 == 0))
+    cases.append(backlog_case(rng, IDS1, [1000] * 100, ("every", 4096)))
+    cases.append(backlog_case(rng, IDS3, sizes_for(rng, 131072 + rng.randrange(4096), 4000, 20000), ("cuts", 3)))
+    cases.append(backlog_case(rng, IDS1, sizes_for(rng, 262144, 65542, 65542), ("every", 65536)))
+    if BIG_STACK:
+        cases.append(backlog_case(rng, IDS1, sizes_for(rng, 1048576 + 4096 + rng.randrange(100), 50000, 65542), ("every", 65536), tail=False))
+    if big:
+        for total in (300000, 524288, 1048576, 2097152) if BIG_STACK else (300000, 400000):
+            cases.append(backlog_case(rng, IDS1, sizes_for(rng, total + rng.randrange(100), 30000, 65542), ("every", 8192)))
+            cases.append(backlog_case(rng, IDS3, sizes_for(rng, total // 2, 500, 65542), ("cuts", 7)))
+        for _ in range(40):
+            total = rng.choice([65542, 70000, 100000, 131072]) + rng.randrange(-10, 11)
+            cases.append(backlog_case(rng, IDS3, sizes_for(rng, total, 200, 30000), rng.choice([("every", rng.randrange(1000, 9000)), ("cuts", rng.randrange(1, 9)), ("prefix", rng.random(), 4096)])))
+    yield "backlog_before_first_parse", "exact", cases
 
 
 # ------------------------------------------------------------------ oracle
 def split_obs(ires, nops):
-    """[(packets, queue)] per operation from the flat observation"""
+    """[(packets, queue)] per observed operation from the flat observation, and what follows them"""
     out, i = [], 1
     for _ in range(nops):
         npk, nq = ires[i]
         out.append((ires[i + 1:i + 1 + npk], ires[i + 1 + npk:i + 1 + npk + nq]))
         i += 1 + npk + nq
-    return out
+    return out, ires[i:]
+
+
+def _is_append(o):
+    return bool(o) and o[0] in (0, 3)
+
+
+SPEC_LIMIT = 20000     # longer streams: the ground truth of the generator decides alone
 
 
 def _const_ids(ops):
@@ -246,24 +471,37 @@ def _const_ids(ops):
 
 def oracle_spec(case, ires):
     op, a = case
-    if op == 900 and ires[0] == [0] and _const_ids(a[2:]):
+    if op in (900, 902) and ires[0] == [0] and _const_ids(a[2:]):
         tr = a[0]
         raws = [raw_id(tr[i], tr[i + 1], tr[i + 2]) for i in range(0, len(tr) - 2, 3)]
-        stream = [x for o in a[2:] if o and o[0] == 0 for x in o[1:]]
-        return [(950, [raws, stream])]
+        stream = [x for o in a[2:] if _is_append(o) for x in o[1:]]
+        if len(stream) <= SPEC_LIMIT or not a[1]:
+            return [(950, [raws, stream])]
     return []
 
 
 def oracle(case, ires, sres):
     op, a = case
-    if op != 900:
+    if op not in (900, 902):
         return None
     if ires[0][0] == 1:
         return ("C13/parse_space_packets/raises", "parser raised on an octet stream: %s" % (ires,))
     ops = a[2:]
+    obs, rest = split_obs(ires, len(ops) if op == 900 else sum(1 for o in ops if not _is_append(o)))
+    r = _oracle_history(op, a, ops, obs, sres)
+    if r is None and rest != [[0]]:
+        return ("C13/parse_space_packets/aliased-buffers",
+                "overwriting the chunk objects the caller had appended (consumed by the call) or the packets it was handed "
+                "changed the queue or a packet handed out earlier after %s parse call(s): the results share memory" % (rest,))
+    return r
+
+
+def _oracle_history(op, a, ops, obs, sres):
+    if op == 902:       # appends are not observed: (no packets, queue unknown)
+        it = iter(obs)
+        obs = [([], None) if _is_append(o) else next(it) for o in ops]
     if not _const_ids(ops):
         return None
-    obs = split_obs(ires, len(ops))
     segs = a[1]
     # ground truth
     bounds, pos = [], 0       # (start, end) of every packet
@@ -273,7 +511,7 @@ def oracle(case, ires, sres):
         pos += abs(n)
     stream, returned, appended = [], [], 0
     for o, (pk, q) in zip(ops, obs):
-        if o and o[0] == 0:
+        if _is_append(o):
             stream += o[1:]
             appended = len(stream)
             continue
@@ -292,7 +530,7 @@ def oracle(case, ires, sres):
                 return ("C13/parse_space_packets/queue-tail",
                         "after %d octets the queue holds %d octets; the incomplete tail starts at %d (last complete packet ends at %d)" % (appended, len(qcat), s_next, e_last))
     # chunked parsing = one parse over everything (Spec.spec_stream), when the history ends with a parse
-    if sres and ops and not (ops[-1] and ops[-1][0] == 0):
+    if sres and ops and not _is_append(ops[-1]):
         sp_ = sres[0]
         npk = sp_[1][0]
         spk, srem = sp_[2:2 + npk], sp_[2 + npk]
@@ -313,13 +551,15 @@ def oracle(case, ires, sres):
 def neighbours(case):
     op, a = case
     out = []
-    if op == 900:
+    if op in (900, 902):
         ops = a[2:]
-        for i in range(len(ops)):       # drop one operation / add a parse
-            out.append((900, [a[0], []] + ops[:i] + ops[i + 1:] + [[1]]))   # ground truth no longer applies
-        st = [x for o in ops if o and o[0] == 0 for x in o[1:]]
-        for c in range(1, len(st)):
-            out.append((900, [a[0], a[1], [0] + st[:c], [1], [0] + st[c:], [1]]))
+        st = [x for o in ops if _is_append(o) for x in o[1:]]
+        if len(ops) <= 40 and len(st) <= 4096:
+            for i in range(len(ops)):       # drop one operation / add a parse
+                out.append((900, [a[0], []] + ops[:i] + ops[i + 1:] + [[1]]))   # ground truth no longer applies
+        cuts = range(1, len(st)) if len(st) <= 64 else sorted({1, 3, 6, 7, len(st) // 2, len(st) - 7, len(st) - 1})
+        for c in cuts:
+            out.append((op, [a[0], a[1], [0] + st[:c], [1], [0] + st[c:], [1]]))
     return out
 
 
